@@ -3,13 +3,14 @@ Require Import SC3.proofs.NumTac SC3.gen.Gen_builtins.
 Open Scope Q_scope.
 
 Ltac floor_facts :=
+  rewrite ?inject_Z_mult, ?inject_Z_plus;
   repeat match goal with
-  | |- context [Qfloor (?y / ?r)] =>
+  | |- context [inject_Z (Qfloor (?y / ?r))] =>
       let t := fresh "t" in let Ht := fresh "Ht" in let Hf := fresh "Hf" in
       let f := fresh "f" in
       destruct (div_floor y r) as [t [Ht Hf]]; [lra|];
       set (f := inject_Z (Qfloor (y / r))) in *; clearbody f
-  | |- context [Qceiling (?y / ?r)] =>
+  | |- context [inject_Z (Qceiling (?y / ?r))] =>
       let t := fresh "t" in let Ht := fresh "Ht" in let Hf := fresh "Hf" in
       let f := fresh "f" in
       destruct (div_ceil y r) as [t [Ht Hf]]; [lra|];
@@ -38,11 +39,12 @@ Qed.
 Definition multiple_of (r q : Q) : Prop := exists k : Z, r == inject_Z k * q.
 
 Ltac div_facts :=
+  rewrite ?inject_Z_mult, ?inject_Z_plus;
   repeat match goal with
-  | |- context [Qfloor ?e] =>
+  | |- context [inject_Z (Qfloor ?e)] =>
       let f := fresh "f" in
       pose proof (floor_bounds e); set (f := inject_Z (Qfloor e)) in *; clearbody f
-  | |- context [Qceiling ?e] =>
+  | |- context [inject_Z (Qceiling ?e)] =>
       let f := fresh "f" in
       pose proof (ceil_bounds e); set (f := inject_Z (Qceiling e)) in *; clearbody f
   end;
